@@ -6,7 +6,8 @@
    number of connections and requests, any handler durations, any interleaving of the accept loop, the receive
    loops, the dispatcher, the handlers, the Shutdown poller, the context and the process exit. *)
 From Coq Require Import List NArith Bool Arith.
-From TarsV Require Import Conc.Shutdown Conc.ShutdownProofs.
+From TarsV Require Gen.Consts.
+From TarsV Require Import Conc.Shutdown Conc.ShutdownProofs Conc.ShutdownSrc.
 Import ListNotations.
 
 (* The model now has the code's granularity at the two places where a step used to be atomic: recv's conn.Read
@@ -188,6 +189,21 @@ Theorem C12_ctx_expiry_enabled : forall W cap early s, is_down (ph s) = true ->
   exists s', step W cap early s LCtxExpire = Some s' /\ ph s' = SRetCtx.
 Proof. exact ShutdownProofs.ctx_expiry_enabled. Qed.
 
+(* 6. What the model takes from the source text of tars/transport, regenerated on every run (the c_c12 definitions of Gen/Consts.v):
+   the two tickers have the same period (the model's [polled] guard), the shutdown read deadline is shorter than a
+   tick, the idle threshold, and the shape of the steps the model mirrors. *)
+Theorem C12_source_tickers_same_period :
+  (Consts.c_c12_shutdown_tick_ms = Consts.c_c12_recv_drain_tick_ms /\ 0 < Consts.c_c12_shutdown_tick_ms)%N.
+Proof. exact ShutdownSrc.src_tickers_same_period. Qed.
+Theorem C12_source_read_deadline_below_tick : (Consts.c_c12_shutdown_read_deadline_ms < Consts.c_c12_shutdown_tick_ms)%N.
+Proof. exact ShutdownSrc.src_read_deadline_below_tick. Qed.
+Theorem C12_source_idle_threshold : (Consts.c_c12_closeidles_idle_s = 2)%N.
+Proof. exact ShutdownSrc.src_idle_threshold_s. Qed.
+Theorem C12_source_step_shape :
+  (Consts.c_c12_closemsg_before_sweep = 1 /\ Consts.c_c12_accept_error_continues = 1 /\ Consts.c_c12_count_before_dispatch = 1 /\
+   Consts.c_c12_allclosed_only_cleared = 1 /\ Consts.c_c12_closemsg_range_continues = 1 /\ Consts.c_c12_decrement_deferred_in_handler = 1)%N.
+Proof. exact ShutdownSrc.src_step_shape. Qed.
+
 (* 5. The tie: a recorded shutdown accepted by the trace validator is explained by a run of the repaired model
    that ends with the process exit, so 1-4 hold of its explanation. *)
 Theorem C12_accepts_sound : forall W cap tr, accepts W cap tr = true ->
@@ -219,3 +235,7 @@ Print Assumptions C12_drained_return_enabled.
 Print Assumptions C12_can_always_return_drained.
 Print Assumptions C12_ctx_expiry_enabled.
 Print Assumptions C12_accepts_sound.
+Print Assumptions C12_source_tickers_same_period.
+Print Assumptions C12_source_read_deadline_below_tick.
+Print Assumptions C12_source_idle_threshold.
+Print Assumptions C12_source_step_shape.
